@@ -320,7 +320,30 @@ def rule_memo(ctx, px):
                 problems.append("declares global/nonlocal")
         for w in state_writes(px, [f]):
             problems.append(f"writes {w[2]}.{w[3]}")
-        # lru_cache on a function taking no hashable key of its inputs: args must all be parameters
+        # lifetime: a memo without `self` in its key (module function, static/class method) lives as long as the
+        # process; it may then only be keyed by plain values - model objects (pydsdl types compare by name/version,
+        # not by content) would let one run serve a later run stale results
+        params = [a for a in f.node.args.args + f.node.args.kwonlyargs]
+        has_self = bool(params) and params[0].arg == "self" and not any("staticmethod" in d or "classmethod" in d for d in f.decorators)
+        if not has_self and "cached_property" not in " ".join(decos):
+            VALUE_TYPES = {"int", "str", "bool", "float", "bytes"}
+            for a in params:
+                if a.arg in ("cls",):
+                    continue
+                ann = ast.unparse(a.annotation) if a.annotation is not None else None
+                if ann is None or ann.split(".")[-1] not in VALUE_TYPES:
+                    # model objects compare by name/version: harmful when the result retains the object or depends on its content
+                    CONTENT = {"attributes", "fields", "fields_except_padding", "constants", "data_type", "inner_type", "request_type",
+                               "response_type", "doc", "source_file_path", "extent", "bit_length_set", "deprecated", "fixed_port_id"}
+                    reads = sorted({x.attr for x in ast.walk(f.node) if isinstance(x, ast.Attribute) and isinstance(x.value, ast.Name)
+                                    and x.value.id == a.arg and x.attr in CONTENT})
+                    retains = any(isinstance(r, ast.Return) and r.value is not None and any(
+                        isinstance(c, ast.Call) and any(isinstance(v, ast.Name) and v.id == a.arg for v in c.args) for c in ast.walk(r.value))
+                        for r in ast.walk(f.node))
+                    if reads or retains:
+                        problems.append(f"process-wide memo keyed by `{a.arg}: {ann}`: model objects compare by name and version, but the result "
+                                        f"{'retains the object' if retains else 'depends on its content ' + str(reads)}; entries outlive the generator "
+                                        "run that created them and serve a later run stale results")
         ok = not problems
         ctx.ob(R, f.module.rel, f"{f.short} [{'/'.join(d for d in decos if d in CACHE_DECOS)}]", ok,
                "pure memo: result depends on arguments only" if ok else "; ".join(sorted(set(problems))), f.node.lineno)
